@@ -158,7 +158,9 @@ Run(r, e, q, i) ==
             IF firstRun THEN next ELSE {"deny403"}
       [] w = "optionalAuth" ->
             IF e.loginPage
-            THEN IF users # {} /\ CookieClass(q.cookie) = "valid" THEN {"redirDash"} ELSE next
+            THEN \* an already authenticated visitor is sent on to the dashboard
+                 \* (or simply shown the page: the statement does not care)
+                 IF users # {} /\ CookieClass(q.cookie) = "valid" THEN {"redirDash"} \cup next ELSE next
             ELSE IF e.asset \/ users = {} THEN next
             ELSE IF CookieClass(q.cookie) = "valid" THEN next
             ELSE IF q.cookie = "none" THEN (IF q.basic = "right" THEN next ELSE Deny)
@@ -227,9 +229,9 @@ Bad(q, o) == {n \in {"NoUnauthenticatedHandler", "MutatingNeedsMethodAndJSON",
                   [] n = "AuthServed"                 -> ~P_AuthServed(q, o)}
 
 \* ------------------------------------------------------------- behaviour
-\* The shapes explored.  For the two spellings that ServeMux answers itself
-\* (301 to the cleaned path, before any route is consulted) content type and
-\* body are not varied.
+\* The shapes explored.  For the two spellings that today's ServeMux answers
+\* itself (301 to the cleaned path, before any route is consulted) content type
+\* and body are not varied.
 Shape(q) == q.spelling \in {"dotSegment", "doubleSlash"} => q.ctype = "none" /\ ~q.body
 Requests == {q \in [method : Methods, ctype : CTypes, body : BOOLEAN, cookie : Cookies,
                     basic : Basics, spelling : Spellings] : Shape(q)}
